@@ -31,6 +31,7 @@ package server
 import (
 	"context"
 	"fmt"
+	"os"
 	"sort"
 	"strconv"
 	"strings"
@@ -574,6 +575,15 @@ func TestVerifC02ISR(t *testing.T) {
 	cases := []cs{{"isr-reentry", 3}, {"stale-term-fetch", 1}, {"stale-term-fetch", 2}}
 	if vThorough() {
 		cases = append(cases, cs{"isr-reentry", 1}, cs{"isr-reentry", 6}, cs{"stale-term-fetch", 4})
+	}
+	if only := os.Getenv("C02ISR_ONLY"); only != "" { // C04 runs the acknowledgement scenarios only
+		var sel []cs
+		for _, c := range cases {
+			if c.kind == only {
+				sel = append(sel, c)
+			}
+		}
+		cases = sel
 	}
 	if rc := vReplayCase(t); rc != nil && len(rc) > 0 {
 		f := strings.Fields(rc[0])
